@@ -97,7 +97,7 @@ def run(c):
                     c.nontriv(s)
             for m in o.get("mismatch") or []:
                 c.fail("oracle", "Deadcode() verdict contradicts the constant-condition oracle: " + m,
-                       input={"target": o.get("src"), "rules": "Match(`probe($x)`).Where(m.Deadcode()) / .Where(!m.Deadcode()) and the disturber rules of the load history (groups q<n>_*; *_dead / *_live end in Deadcode() / !Deadcode())", "seed": seed,
+                       input={"target": o.get("src"), "GODEBUG while the target was type-checked": "gotypesalias=%s" % o.get("gotypesalias"), "rules": "Match(`probe($x)`).Where(m.Deadcode()) / .Where(!m.Deadcode()) and the disturber rules of the load history (groups q<n>_*; *_dead / *_live end in Deadcode() / !Deadcode())", "seed": seed,
                               "load_history": o.get("config"), "rules_files": o.get("files"), "load_order": o.get("order"),
                               "before_on_the_shared_state": o.get("poison") or "the earlier generated files of this engine"},
                        expected="dead iff some enclosing if has a constant condition and the probe lies in its Body (false) / Else (true)",
@@ -117,6 +117,14 @@ def run(c):
         if c.coverage.get("deadcode_runs:reports:helper-group-decisions", 0) < 1000 or c.coverage.get("disturber_rules:helper-name-clashes", 0) < 8:
             c.obligation("harness:deadcode-local-helper-groups", False, "the groups with equal-named local helper funcs (different bodies, some reading "
                          "the dead-code flag) were not judged: %s" % {k: v for k, v in c.coverage.items() if "helper" in k})
+        cov = lambda k: c.coverage.get(k, 0)
+        if (not cov("deadcode_runs:files:gotypesalias=1") or not cov("deadcode_runs:files:gotypesalias=0")
+                or not cov("deadcode_runs:if-conditions:constant-of-alias-type") or not cov("disturber_rules:type+deadcode")
+                or cov("disturber_rules:type-templates-that-do-not-load")):
+            c.obligation("harness:deadcode-alias-typed-conditions-and-type-filters", False, "the generated files must be type-checked under "
+                         "GODEBUG=gotypesalias=1 and =0, have constant if conditions of an alias-of-bool type, and every load history must "
+                         "carry rules with type / constant filters on the conditions (all templates loading): %s"
+                         % {k: v for k, v in c.coverage.items() if "alias" in k or ":type" in k})
         if len(hist) < 6:
             c.obligation("harness:deadcode-load-histories", False, "only %d of the load histories with Deadcode() rules ran: %s" % (len(hist), sorted(hist)))
 
